@@ -17,6 +17,33 @@ CHECKS = {
  "C20": ("exploration", "Go race detector + checkptr, pool sanitizer (poison/quarantine/canary, hook H1) and ownership hooks (H3, H5) observing hostile end-to-end and in-process transport workloads; reports parsed and de-duplicated from race logs",
          "Any data race with a mosproxy frame, any double release / write-after-release report, any poisoned byte reaching a keyed answer fails the check. Reach: all listeners and upstream transports, abandoned client connections, cancellation storms with 0-2.5 ms deadlines, cache eviction with injected delays, quarantine on and off.",
          "Race detector only sees races that happen on the executed schedules; foreign (dependency-only) races are listed but do not fail the check", "C20"),
+ "C07": ("exploration", "offline history checker over client RESP / upstream FETCH events joined by reply serial (key integrity, group isolation, equality modulo TTL, hit-required), sequential key-component pairs, porcupine linearizability check of MemoryCache histories against a bag-register model under injected delay, differential range-table lookups",
+         "Real binary with an ip-marker file: every response's serial is joined with the upstream log and the reference group lookup; MemoryCache Store/Get histories under eviction pressure with the H2 delay point are checked by porcupine. Held on the histories produced.",
+         "Trusts the fake upstream's serial log, porcupine, the 10-line reference group lookup; Redis second level not exercised", "C07"),
+ "C08": ("exploration", "offline history checker with one-sided real-time bounds (ageing, expiry, never-cached, no-displacement) over probe responses and upstream fetch logs of the real binary",
+         "Keys with generated TTL vectors/rcodes are probed at scheduled ages before and after their reference lifetime under two maximum_ttl settings; bounds stay sound under arbitrary scheduling delay (store time bracketed by upstream send stamp and first client receipt).",
+         "Real time: default 6 h cap and 30 s lifetimes only in the thorough tier; 3 s expiry grace absorbs cache clock granularity", "C08"),
+ "C10": ("exploration", "differential runtime monitor: reference first-match rule evaluator vs client rcodes and per-upstream query logs of the real binary started with generated YAML; start-up rejection of bad configurations observed by exit status",
+         "Each generated configuration is run by the instrumented binary and probed with unique names; the deciding rule, rcode, selected upstream, lower-casing, RD and absence of contact with other upstreams are checked; bad configurations must exit non-zero without a crash.",
+         "Rules with both reject and forward, reverse without domain, reject>15 are not generated (undefined by the statement)", "C10"),
+ "C12": ("exploration", "runtime monitor on client responses and upstream-side wire bytes (raw OPT/option scanner + reference ECS encoder) against the real binary, ECS on/off, cached and uncached paths",
+         "Every probe response and the matching upstream query are scanned for OPT records and options; ECS content is compared byte-exact with a reference encoder for v4, v6, v4-mapped and unknown client addresses.",
+         "Client addresses via loopback sockets and the DoH client-address header; abstract-unix listeners not exercised", "C12"),
+ "C13": ("exploration", "strict frame parser + ID multiset + keyed-answer oracle on the byte stream read back from tcp/gnet/tls listeners under generated segmentations, pacing and out-of-order completion; limit scenario joined with the upstream log",
+         "k pipelined frames are written in generated segmentations; the returned stream must be exactly k well-formed frames with the sent ID multiset and correct answers; with max_concurrent_queries=4 all queries are answered, REFUSED ones never reach the upstream, at most 4 are outstanding upstream.",
+         "TLS record boundaries are not controlled; missing responses are re-run alone 3x before they count", "C13"),
+ "C15": ("exploration", "virtual-time runtime monitor of ClientLimiter.AllowN (conservation bound, metamorphic isolation replay, sharing probe) + end-to-end flood/victim scenario on the real binary",
+         "Generated arrival histories and option sets (incl. omitted masks) are fed through AllowN with caller-supplied time; E2E: flooders exhaust their subnets, victims on other subnets (UDP/TCP/gnet/DoT/DoQ sockets, DoH header for v6 and v4-mapped) must be served, refused queries are REFUSED/503 and never forwarded.",
+         "Limiter GC (real time, 1 min) avoided by short histories; E2E cost bound uses the minimum per-query cost", "C15"),
+ "C17": ("fault_enumeration", "exhaustive matrices: dial destination observed through the socket Control callback / UDP sniffers vs a reference address resolver; upstream certificate matrix and client-certificate matrix through the real binary",
+         "All (scheme x host form x port x dial_addr) cells, all (TLS upstream kind x server certificate x tls option) cells and all (TLS listener x client certificate) cells are enumerated; outcome compared with the reference (success iff chain+name+validity or skip-verify; served iff valid client certificate).",
+         "quic/h3 destinations only observable for loopback; system-roots option means 'no configured CA' (the harness CA is never in the system pool)", "C17"),
+ "C18": ("fault_enumeration", "child-process runtime monitors with watchdog: Close raced against idle/in-flight/pending-dial states for every upstream kind with a /proc/self/fd socket census; router start/close and failing listener at every position through hook H4; exit status of the real binary",
+         "Every (upstream kind x race point) cell and every (server count x failing position x failure kind) cell runs in its own process: Close must return within 5 s, be idempotent, release in-flight exchanges, leave no socket; failed start-up must be an error with earlier listeners released.",
+         "Socket census counts the harness's fake servers too (they close when the peer does); promptness thresholds are seconds", "C18"),
+ "C19": ("exploration", "offline history checker over burst hits and upstream fetch intervals (background vs request-path classification) on the real binary in real time",
+         "Bursts of 1-200 concurrent hits in the last quarter of a 12 s entry while refreshes take 1.5 s or fail: hits must show the cached reply quickly, background refresh intervals must be disjoint, the renewed entry must be visible after a successful refresh and the old one after a failed one.",
+         "Latency verdict needs a quarter of the burst to be slow; keepalive traffic keeps pooled upstream connections from idling out", "C19"),
 }
 NOT_YET = {}
 
